@@ -7,6 +7,8 @@ import BSEGen.Manip
 import BSEGen.Api
 import BSEProofs.Lemmas.PruneFull
 import BSEProofs.Lemmas.SortPerm
+import BSEProofs.Lemmas.Shapes
+import BSEProofs.Lemmas.SortShape
 /-! # C02 — re-contraction operations preserve the set of basis functions exactly
 
 `funcSet val shells f` : the contracted function `f = (l, exponent ↦ coefficient)` occurs in the
@@ -127,6 +129,50 @@ theorem sortShells_preserves (val : ν → Rat) (keyed : List (Shell ν × List 
     (hw : ∀ t ∈ keyed, RectShell t.1 ∧ (t.1.am.length = 1 → t.2.1.length = t.1.coefs.length)) (f : Func) :
     funcSet val (sortShells val keyed) f ↔ funcSet val (keyed.map (·.1)) f :=
   funcSet_sortShells val keyed hw f
+
+/-! ## shape promises — what the result of each operation looks like, for every input -/
+
+/-- **uncontract_general**: no general contraction is left in a single-momentum shell (whole operation, pruning included) -/
+theorem uncontractGeneral_shape [DecidableEq ν] (val : ν → Rat) (shells out : List (Shell ν))
+    (hw : ∀ sh ∈ shells, SemWF val sh) (h : uncontractGeneral val shells = .ok out) :
+    ∀ s ∈ out, s.am.length = 1 → s.coefs.length = 1 :=
+  fun s hs h1 => BSE.uncontractGeneral_shape val shells out hw h s hs h1
+
+/-- **uncontract_spdf**: no fused shell of the result has a member above `max_am` — every shell list, every `max_am` -/
+theorem uncontractSpdf_shape (k : Nat) (shells : List (Shell ν)) :
+    ∀ s ∈ uncontractSpdf k shells, s.am.length > 1 → ∀ a ∈ s.am, a ≤ k :=
+  fun s hs hf => BSE.uncontractSpdf_shape k shells s hs hf
+
+/-- **make_general**: one shell per angular momentum among the single-momentum shells, in ascending order (whole operation) -/
+theorem makeGeneral_shape [DecidableEq ν] (val : ν → Rat) (zero : ν) (hz : val zero = 0) (skip : Bool)
+    (shells out : List (Shell ν))
+    (hw : ∀ sh ∈ (if skip then shells else uncontractSpdf 0 shells), SemWF val sh)
+    (h : makeGeneral val zero skip shells = .ok out) :
+    ((out.map (·.am)).filter (fun am => ¬ am.length > 1)).Nodup ∧
+    ((out.map (·.am)).filter (fun am => ¬ am.length > 1)).Pairwise (fun x y => x.headD 0 ≤ y.headD 0) :=
+  BSE.makeGeneral_shape val zero hz skip shells out hw h
+
+/-- the merge step neither creates nor drops fused shells -/
+theorem makeGeneral_keeps_fused [DecidableEq ν] (zero : ν) (shells : List (Shell ν)) :
+    (makeGeneralCore zero sortAm shells).filter (fun sh => sh.am.length > 1) = shells.filter (fun sh => sh.am.length > 1) :=
+  makeGeneralCore_fused zero shells
+
+/-- **sort_basis / sort_shell**: exponents in decreasing order of value — every shell, every key list -/
+theorem sortShell_exponents_decreasing (val : ν → Rat) (rsq : List Rat) (sh : Shell ν) :
+    ((sortShell val rsq sh).exps.map val).Pairwise (fun a b => a ≥ b) :=
+  sortShell_exps_sorted val rsq sh
+
+/-- **sort_basis / sort_shells**: shells by increasing (highest) momentum, each with decreasing exponents -/
+theorem sortShells_momentum_increasing (val : ν → Rat) (keyed : List (Shell ν × List Rat × Rat)) :
+    ((sortShells val keyed).map (fun s => s.am.foldl max 0)).Pairwise (fun a b => a ≤ b) ∧
+    ∀ s ∈ sortShells val keyed, (s.exps.map val).Pairwise (fun a b => a ≥ b) :=
+  ⟨sortShells_am_sorted val keyed, sortShells_exps_sorted val keyed⟩
+
+/-- **sort_shell is idempotent** when the spatial-extent keys move with their contractions (they are a function of
+the contraction: `_spatial_extent` is computed column by column) -/
+theorem sortShell_idempotent (val : ν → Rat) (rsq : List Rat) (sh : Shell ν) :
+    sortShell val (permBy (cIdx rsq sh) rsq) (sortShell val rsq sh) = sortShell val rsq sh :=
+  sortShell_idem val rsq sh
 
 /-! non-vacuity: a concrete fused + general element meets the hypotheses and the operations act -/
 def demo : List (Shell String) :=
